@@ -269,3 +269,19 @@ package component_definition
 //@ requires [property-built] n != nil && n.args != nil
 //@ assigns mapcontents(n.args)
 //@ ensures [added] implies(t != "", in(Fmt(t), n.args) && len(n.args[Fmt(t)]) == len(old(n.args[Fmt(t)])) + len(val))
+
+// ---- configuration binding (C09; the decoding itself is third-party: mapstructure, A-LIB) ------------------------------
+// Unmarshall decodes configValue into the field behind the property. Trusted: it writes only that field's location
+// (and fresh memory behind it), does nothing for a nil value, and rejects non-configuration properties.
+//@ func (*Property).Unmarshall
+//@ trusted
+//@ requires [point-wellformed] PointOK(n)
+//@ assigns RMem[RLoc(n.Value)], RTop
+//@ ensures [nil-value-untouched] implies(configValue == nil && n.PropertyType == PropertyTypeConfiguration, result == nil && RMem == old(RMem))
+//@ ensures [not-configuration-errors] implies(n.PropertyType != PropertyTypeConfiguration, result != nil && RMem == old(RMem))
+//@ ensures [rtop-monotone] RTop >= old(RTop)
+
+//@ func (*Property).SetConfiguration
+//@ property C09
+//@ requires [property-built] n != nil && n.Configurations != nil
+//@ assigns mapcontents(n.Configurations)
